@@ -313,10 +313,12 @@ fn oracle(log: &[Obs]) -> V {
                     pending_ondemand.push((*client, *seq));
                 }
             }
-            Obs::Ctl(CtlObs::Reply { client, seq, .. }) => {
+            Obs::Ctl(CtlObs::Reply { client, seq, reply }) => {
                 if let Some(p) = pending_ondemand.iter().position(|r| r == &(*client, *seq)) {
                     pending_ondemand.remove(p);
-                    if allowed.is_some() {
+                    // the request joined the check in progress only if it was answered AlreadyRunning
+                    // (Started belongs to the decision it caused; Throttled / Gone / an abandoned call join nothing)
+                    if allowed.is_some() && reply == "AlreadyRunning" {
                         ondemand_accepted = true;
                     }
                 }
@@ -328,7 +330,9 @@ fn oracle(log: &[Obs]) -> V {
                 install_clean = None;
                 reboot_needed_yes = false;
                 last_reboot_allowed = None;
-                ondemand_seen = *opts == Src::OnDemand;
+                // an on-demand request sent before this decision and not yet answered may still be
+                // consumed by the check that starts now (the select took the timer branch first)
+                ondemand_seen = *opts == Src::OnDemand || !pending_ondemand.is_empty();
                 ondemand_accepted = *opts == Src::OnDemand && ans.positive().is_some();
                 in_wait = false;
             }
@@ -506,6 +510,18 @@ fn parts(tier: Tier) -> Vec<PartDef> {
                 }
                 Ok(())
             }),
+        ),
+        PartDef::new(
+            "consent-in-sibling-histories-c09",
+            crate::props::c09::cross_cfg("C05/consent-in-sibling-histories-c09"),
+            json!({"driver": "the C09 history harness", "oracle": "this property's consent oracle on every life of every history"}),
+            move |ctx| crate::cross::judged_by(crate::props::c09::run_for_cross(ctx), &|log, _| crate::cross::per_life(log, &|seg| { requests_follow_policy(seg)?; oracle(seg) })),
+        ),
+        PartDef::new(
+            "consent-in-sibling-histories-c18",
+            crate::props::c18::cross_cfg("C05/consent-in-sibling-histories-c18"),
+            json!({"driver": "the C18 history harness", "oracle": "this property's consent oracle on every life of every history"}),
+            move |ctx| crate::cross::judged_by(crate::props::c18::run_for_cross(ctx), &|log, _| crate::cross::per_life(log, &|seg| { requests_follow_policy(seg)?; oracle(seg) })),
         ),
         PartDef::new(
             "invalid-app-sets",
